@@ -6,6 +6,9 @@
 //   * a per-thread ndjson file `<dir>/<thread-name>.ndjson` when the environment variable
 //     `ROUGHENOUGH_VERIF_TRACE=<dir>` is set (real binaries).
 // Events carry a per-thread sequence number; nothing here orders events across threads.
+//
+// Schedule exploration: `ROUGHENOUGH_VERIF_DELAY=<event>:<ms>[,<event>:<ms>...]` makes the emitting
+// thread sleep that long right after each occurrence of the named event.
 
 use std::cell::RefCell;
 use std::fmt::Write as FmtWrite;
@@ -117,6 +120,24 @@ thread_local! {
     });
 }
 
+static DELAYS: std::sync::OnceLock<Vec<(String, u64)>> = std::sync::OnceLock::new();
+
+fn delay_for(name: &str) -> u64 {
+    let delays = DELAYS.get_or_init(|| {
+        std::env::var("ROUGHENOUGH_VERIF_DELAY")
+            .map(|spec| {
+                spec.split(',')
+                    .filter_map(|item| {
+                        let (ev, ms) = item.split_once(':')?;
+                        Some((ev.trim().to_string(), ms.trim().parse().ok()?))
+                    })
+                    .collect()
+            })
+            .unwrap_or_default()
+    });
+    delays.iter().find(|(ev, _)| ev == name).map(|(_, ms)| *ms).unwrap_or(0)
+}
+
 static LOCK_SEQ: std::sync::atomic::AtomicU64 = std::sync::atomic::AtomicU64::new(0);
 
 /// Next value of a process-wide counter. Called while holding the configuration mutex, it
@@ -168,5 +189,10 @@ pub fn emit(name: &'static str, fields: Vec<(&'static str, V)>) {
                 st.tracer = Some(t);
             }
         });
+    }
+
+    let ms = delay_for(name);
+    if ms > 0 {
+        std::thread::sleep(std::time::Duration::from_millis(ms));
     }
 }
